@@ -171,6 +171,14 @@ def merge(pid, tier, seed, nshards, results, outdir):
     for shard, rc, res, dt in sorted(results, key=lambda r: r[0]):
         if res is None:
             m['inconclusive'].append('shard %d produced no result (rc=%s)' % (shard, rc))
+            # violations the shard had already found before it was killed (written to a side file as they occur) still count
+            side = os.path.join(outdir, 'shard%02d.json.violations' % shard)
+            if os.path.exists(side):
+                for line in open(side):
+                    try:
+                        m['violations'].append(json.loads(line))
+                    except Exception:
+                        pass
             continue
         if rc != 0:
             m['inconclusive'].append('shard %d exit %s' % (shard, rc))
